@@ -144,8 +144,9 @@ pub fn compact(cells: &[u64]) -> Result<Vec<u64>, String> {
 
                     // Check that all expected siblings are present with correct stride
                     for j in 1..expected_children {
-                        let expected_cell = cell + (j as u64) * stride;
-                        if current_cells[i + j] != expected_cell {
+                        // Malformed IDs near the top of the u64 range have no such sibling
+                        let expected_cell = cell.checked_add((j as u64) * stride);
+                        if expected_cell != Some(current_cells[i + j]) {
                             has_all_siblings = false;
                             break;
                         }
